@@ -169,6 +169,47 @@ Theorem C04_backpressure :
 Proof. exact backpressure. Qed.
 Print Assumptions C04_backpressure.
 
+(* What poll_ready does, exactly: below BACKPRESSURE_BOUNDARY queued bytes it answers Ready(Ok)
+   without a single carrier call; at or above it, it is one poll_flush. So a flush that poll_ready
+   started and that the carrier stalled with fewer than BACKPRESSURE_BOUNDARY bytes left is NOT
+   taken up again by the next poll_ready: the rest of the queue stays where it is until somebody
+   calls poll_flush / send_framed — and is dropped by a close that comes first
+   (C04_close_sends_nothing). SinkExt::feed is poll_ready + start_send: a fed message is covered
+   only by a later flush or send_framed that reports completion. *)
+Theorem C04_poll_ready_flushes_to_boundary :
+  forall (bp : N) (script : list wev) (w : wstate) (sent0 : list N),
+  (pbytes w < bp -> poll_ready bp script w sent0 = (WOk, w, sent0, script)) /\
+  (bp <= pbytes w -> poll_ready bp script w sent0 = flush script w sent0) /\
+  (forall r w' sent' script',
+     0 < bp -> pbytes w = lenN (qbytes w) ->
+     poll_ready bp script w sent0 = (r, w', sent', script') ->
+     (r = WOk -> pbytes w' < bp) /\
+     (pbytes w' < bp -> forall script2, poll_ready bp script2 w' sent' = (WOk, w', sent', script2))).
+Proof.
+  intros bp script w sent0. split; [apply poll_ready_below|]. split; [apply poll_ready_at|].
+  intros r w' sent' script' Hbp Hi H. eapply poll_ready_to_boundary; eauto.
+Qed.
+Print Assumptions C04_poll_ready_flushes_to_boundary.
+
+(* The receiver at an end of stream that falls inside a frame (the sender closed, or was cut off,
+   with part of a frame on the wire): poll_next answers Ready(None) — end of stream, not an error —
+   leaves its state alone and delivers nothing; with C04_reader_roundtrip (the wire may be any
+   prefix of the encoding) the frames returned before it are whole messages that were really sent,
+   in order: a truncated last message is never delivered as a message. (A carrier ERROR inside a
+   frame is reported by Identity(n) and is likewise taken for the end of the stream by
+   UnsignedVarint: `on_err`.) *)
+Theorem C04_eof_inside_frame_is_end_of_stream :
+  forall (c : codec) (wire : list N) (script : list rdev) (polls : nat) outs st wire' script' rest,
+  run_reader polls c (init_r c) wire script = (outs, st, wire', script') ->
+  poll_next c st wire' (EvEof :: rest) = (RClosed, st, wire', rest).
+Proof.
+  intros c wire script polls outs st wire' script' rest H.
+  destruct (safe_init c) as (Hs & Ha).
+  destruct (run_reader_safe _ _ _ _ _ _ _ _ _ Hs Ha H) as (_ & Hs' & _).
+  apply poll_next_eof. exact Hs'.
+Qed.
+Print Assumptions C04_eof_inside_frame_is_end_of_stream.
+
 (* End to end: any history of the six operations over any write script (every send_framed run
    to completion), then any reader schedule over what reached the carrier: frames come out as an
    initial segment of the accepted messages in call order, never a panic or a ReadFailure, and
@@ -582,4 +623,20 @@ Example C04_nonvacuous_yamux :
               y_out (g_car (ys_g y)) = [2; 98; 1500; 1500; 902]
   | None => False
   end.
+Proof. vm_compute. repeat split; reflexivity. Qed.
+
+(* feed, feed, close without a flush (boundary 100 to keep it small): the first poll_ready after a
+   302-byte frame is stalled by the carrier with 50 bytes left and answers Pending; the next one
+   finds fewer than 100 bytes queued and answers Ready without writing; close shuts the carrier
+   down with 252 of the 302 bytes on the wire; the reader sees a clean end of stream inside the
+   frame and delivers nothing *)
+Example C04_feed_close_cuts_a_frame :
+  let c := Varint None in
+  let m := repeat 7 300 in
+  let ops := [OSend m; OReady; OReady; OSend [1; 2; 3]; OClose] in
+  let wscript := [WChunk 250; WChunk 250; WPending; WChunk 250] in
+  let '(rs, s') := run_ops 100 c (init_sys wscript) ops in
+  let '(outs, _, wire', _) := run_reader 3 c (init_r c) (sent s') (repeat (EvChunk 1000) 4 ++ [EvEof; EvEof]) in
+  map fst rs = [WOk; WPend; WOk; WOk; WOk] /\ lenN (sent s') = 252 /\ pbytes (ws s') = 54 /\ shut s' = true /\
+  outs = [RClosed; RClosed; RClosed] /\ frames_of outs = [] /\ wire' = [].
 Proof. vm_compute. repeat split; reflexivity. Qed.
